@@ -1762,7 +1762,25 @@ func (d *DataRow) CountStats(stats, result []*Filter) {
 				d.CountStats(stat.filter, result)
 			}
 		default:
-			result[resultPos].ApplyValue(d.GetFloat(stat.column), 1)
+			result[resultPos].ApplyValue(d.getStatsValue(stat.column), 1)
 		}
 	}
+}
+
+// getStatsValue returns the number which sum, avg, min and max aggregate for this row.
+// Columns which do not hold numbers count as zero (as livestatus does), GetFloat knows numeric storage only.
+func (d *DataRow) getStatsValue(col *Column) float64 {
+	valueCol := col
+	for valueCol.StorageType == RefStore && valueCol.RefCol != nil {
+		valueCol = valueCol.RefCol
+	}
+	if valueCol.StorageType == LocalStore {
+		switch valueCol.DataType {
+		case IntCol, Int64Col, FloatCol:
+		default:
+			return 0
+		}
+	}
+
+	return d.GetFloat(col)
 }
